@@ -11,7 +11,7 @@ import (
 // C12 — in-place edit is all-or-nothing.
 
 func init() {
-	register("C12", "Decides structural necessary conditions of '-i leaves the complete old or the complete new content': (W1) census — every call in the module that mutates the file system by path or descriptor has a role in a closed table (temp-create, temp-mode, temp-owner, temp-remove, commit-rename, fallback-copy, split-output, front-matter-temp); an unlisted (function, callee) pair is a violation; (W2) the target-writing roles are reachable only through FinishWriteInPlace, only on its evaluatedSuccessfully branch; FinishWriteInPlace is called only from the deferred closures of the two RunE functions, only under `cmdError == nil`, with the global completedSuccessfully, whose every store is `err == nil` of the evaluation call; (W3) no target-writing role truncates the destination before the complete new content exists elsewhere; (W4) every success return of CreateTempFile passes os.Chmod(temp, Stat(target).Mode()); (W5) the printer flushes the writer it obtains and returns the flush error (shared with C19-E2). (W4b) every Chmod sets a FileInfo's Mode() unmodified. Does NOT decide behaviour at an actual kill point or injected fault.", runC12)
+	register("C12", "Decides structural necessary conditions of '-i leaves the complete old or the complete new content': (W1) census — every call in the module that mutates the file system by path or descriptor has a role in a closed table (temp-create, temp-mode, temp-owner, temp-remove, commit-rename, fallback-copy, split-output, front-matter-temp); an unlisted (function, callee) pair is a violation; (W2) the target-writing roles are reachable only through FinishWriteInPlace, only on its evaluatedSuccessfully branch; FinishWriteInPlace is called only from the deferred closures of the two RunE functions, only under `cmdError == nil`, with the global completedSuccessfully, whose every store is `err == nil` of the evaluation call; (W3) no target-writing role truncates the destination before the complete new content exists elsewhere; (W4) every success return of CreateTempFile passes os.Chmod(temp, Stat(target).Mode()); (W5) the printer flushes the writer it obtains and returns the flush error (shared with C19-E2). (W4b) every Chmod sets a FileInfo's Mode() unmodified. W2 includes the initial value of completedSuccessfully (false). Does NOT decide behaviour at an actual kill point or injected fault.", runC12)
 }
 
 // fsMutators: qualified callee names that change the file system.
@@ -228,6 +228,35 @@ func runC12(c *Ctx) {
 					}
 				})
 			}
+			// … or in a named helper whose every use in the module is a `defer` in a RunE function
+			if parent == nil {
+				uses, allDeferred := 0, true
+				for _, g := range c.moduleFuncs() {
+					eachInstr(g, func(pi ssa.Instruction) {
+						switch x := pi.(type) {
+						case *ssa.Defer:
+							if x.Call.StaticCallee() == fn {
+								uses++
+								if g.Name() != "evaluateSequence" && g.Name() != "evaluateAll" {
+									allDeferred = false
+								}
+							}
+						case *ssa.Call:
+							if x.Call.StaticCallee() == fn {
+								allDeferred = false
+							}
+						case *ssa.Go:
+							if x.Call.StaticCallee() == fn {
+								allDeferred = false
+							}
+						}
+					})
+				}
+				if uses > 0 && allDeferred && !usedAsFuncValue(fn) {
+					inRunE, deferred = true, true
+					nfin += uses - 1
+				}
+			}
 			// argument: load of global completedSuccessfully
 			args := cc.Args
 			if !cc.IsInvoke() {
@@ -253,8 +282,14 @@ func runC12(c *Ctx) {
 					if !ok || u.Op != token.MUL {
 						return false
 					}
-					fv, ok := u.X.(*ssa.FreeVar)
-					return ok && isErrorType(derefType(fv.Type()))
+					switch pv := u.X.(type) {
+					case *ssa.FreeVar:
+						return isErrorType(derefType(pv.Type()))
+					case *ssa.Parameter:
+						// the deferred helper is handed &cmdError
+						return isErrorType(derefType(pv.Type()))
+					}
+					return false
 				}
 				if (isErrLoad(bo.X) && isNilConst(bo.Y)) || (isErrLoad(bo.Y) && isNilConst(bo.X)) {
 					if (bo.Op == token.EQL && taken) || (bo.Op == token.NEQ && !taken) {
@@ -524,4 +559,15 @@ func ruleW4b(c *Ctx, rule string) {
 	if n == 0 {
 		r.Fatal("anchor moved: no Chmod call in the module")
 	}
+}
+
+// usedAsFuncValue: fn is referenced other than as the callee of a call / defer / go.
+func usedAsFuncValue(fn *ssa.Function) bool {
+	callIndexMu.Lock()
+	if callIndexProg != fn.Prog {
+		buildCallIndex(fn.Prog)
+		callIndexProg = fn.Prog
+	}
+	callIndexMu.Unlock()
+	return usedAsValue[fn]
 }
